@@ -5,6 +5,7 @@ import re as _re
 from ..loader import AnalysisError, norm_stmt, walk_own
 from .common import calls_in, alpha_body
 from .common import check as ob
+from ..canon import Canon
 
 EXPLANATION = (
     'Decides: (a) each of the four methods calls the itertools function of its own name on (components, size) / '
@@ -41,28 +42,43 @@ def check(ctx, rep):
            f'its name promises', m.loc(calls[0]) if calls else m.loc(), 'C19a')
         if calls:
             c = calls[0]
-            comp_var = None
-            for n in walk_own(m.node):
-                if isinstance(n, ast.Assign) and isinstance(n.targets[0], ast.Name) and \
-                        isinstance(n.value, ast.ListComp) and '.split()' in norm_stmt(n.value.generators[0].iter) and \
-                        '.serialize()' in norm_stmt(n.value.elt):
-                    comp_var = n.targets[0].id
+            cmr = Canon(m.node)
+            first = cmr.resolve(c.args[0]) if c.args else None
+            pieces = isinstance(first, ast.ListComp) and '.split()' in norm_stmt(first.generators[0].iter) and \
+                '.serialize()' in norm_stmt(first.elt)
             if name == 'product':
-                good = len(c.args) == 1 and norm_stmt(c.args[0]) == comp_var and \
+                good = len(c.args) == 1 and pieces and \
                     (any(kw.arg == 'repeat' and norm_stmt(kw.value) == 'repeat' for kw in c.keywords))
             else:
-                good = len(c.args) == 2 and norm_stmt(c.args[0]) == comp_var and norm_stmt(c.args[1]) == argname
+                good = len(c.args) == 2 and pieces and norm_stmt(c.args[1]) == argname
             ob(rep, 'CALL-itertools', m.fq, f'itertools.{name} receives (serialized residue pieces, {argname})', good,
                norm_stmt(c), f'arguments are `{norm_stmt(c)}`', m.loc(c), 'C19a')
-        dflt = any(isinstance(n, ast.If) and norm_stmt(n.test) == f'{argname} is None' and len(n.body) == 1 and
-                   norm_stmt(n.body[0]) == f'{argname} = len(self)' for n in walk_own(m.node))
+        # the size handed to itertools: len(self) when the caller passes None, the caller's value otherwise (read under
+        # both cases, so an if statement and a conditional expression are the same)
+        from ..guards import specialise, GuardEval as GE, UNK as U
+        cm = Canon(m.node)
+        finals = {}
+        for given in (None, 3, 9):
+            ge = GE({argname: given, 'len(self)': 7, 'len(self.sequence)': 7}, cm.aliases())
+            for _st in specialise(m.node.body, ge):
+                if calls and any(x is calls[0] for x in ast.walk(_st)):
+                    break
+            finals[given] = ge.env.get(argname, U)
+        dflt = finals == {None: 7, 3: 3, 9: 9}
         ob(rep, 'CALL-itertools', m.fq, f'{argname}=None means the full length', dflt, f'{argname} = len(self)',
-           f'None no longer defaults to len(self)', m.loc(), 'C19a')
+           f'with len(self) == 7 the size used is {finals}: None no longer defaults to the full length, or a given size '
+           f'is changed', m.loc(), 'C19a')
         # (b) prologue text with the enumeration-specific parts abstracted
         raw = ' ; '.join(norm_stmt(s) for s in m.node.body
                          if not (isinstance(s, ast.Expr) and isinstance(s.value, ast.Constant)))
-        txt = ' ; '.join(alpha_body(m, [(f'itertools.{name}', 'itertools.F'), (argname, 'K'), ('K=K', 'K')]))
-        prologues[name] = txt
+        # what the method is made of, independent of how it is written: the pieces it enumerates over, the working
+        # copy they come from, how the residue modifications get back onto that copy, and the text the results are
+        # parsed from
+        cs = Canon(m.node)
+        pieces_txt = norm_stmt(cs.resolve(calls[0].args[0])) if calls and calls[0].args else '?'
+        restore = sorted(norm_stmt(cs.resolve(n.value)) for n in walk_own(m.node) if isinstance(n, ast.Assign) and
+                         isinstance(n.targets[0], ast.Attribute) and n.targets[0].attr == '_internal_mods')
+        prologues[name] = (pieces_txt, tuple(restore), tuple(sorted(_result_templates(m))))
         # start/end are serialized before anything is popped
         order = []
         for n in walk_own(m.node):
@@ -77,10 +93,15 @@ def check(ctx, rep):
         ob(rep, 'SIB-clone', m.fq, 'start and end text are taken from self before anything is popped', ok,
            'serialize_start(), serialize_end(), then pop', f'order is {kinds}: the wrapping text would miss '
            f'annotations that were already removed', m.loc(), 'C19b')
-        ret = [n for n in walk_own(m.node) if isinstance(n, ast.Return) and n.value is not None]
-        ok = len(ret) == 1 and _is_wrapped_parse(m, ret[0])
+        tpl = _result_templates(m)
+        bad_ret = _returns_not_enumerated(m)
+        ob(rep, 'SIB-clone', m.fq, 'every return hands back the enumerated, re-parsed list', not bad_ret,
+           'list of parse(...) over the itertools call', f'`{bad_ret}` returns something that was not built by '
+           f'parsing the pieces of the itertools enumeration (a shortcut result keeps or loses what the re-parsed '
+           f'results do not)', m.loc(), 'C19b')
+        ok = tpl == ["{self.serialize_start()}{''.join(_)}{self.serialize_end()}"]
         ob(rep, 'SIB-clone', m.fq, "every result is parse(start + ''.join(pieces) + end)", ok, 're-parsed text',
-           f'returns `{norm_stmt(ret[0])[:80] if ret else "?"}`', m.loc(), 'C19b')
+           f'results are parsed from {tpl}', m.loc(), 'C19b')
         # (c) key read back
         keys = set(_re.findall(r"\.get\('([a-z_]+)'\)", raw))
         ob(rep, 'TOK-key', m.fq, "the residue modifications are read back under pop_mods' key", keys == {'internal'} and
@@ -104,9 +125,71 @@ def check(ctx, rep):
            'the wrapper calls another method or drops its size argument', w.loc(), 'C19a')
     base = prologues['permutations']
     for name, txt in prologues.items():
-        ob(rep, 'SIB-clone', f'{PFA}.{name}', f'{name} shares the prologue of permutations', txt == base,
-           'identical modulo the itertools function and its size argument',
-           f'the body differs from permutations: `{_first_diff(base, txt)}`', cls.methods[name].loc(), 'C19b')
+        ob(rep, 'SIB-clone', f'{PFA}.{name}', f'{name} is built like permutations', txt == base,
+           'same pieces, same working copy, same result text; only the itertools function differs',
+           f'{name} differs from permutations in what it enumerates over or returns: {txt} vs {base}',
+           cls.methods[name].loc(), 'C19b')
+
+
+def _result_templates(m) -> list:
+    """text templates the results are parsed from: the argument of every parse(...) call, with concatenation and
+    f-strings flattened, locals resolved and the enumeration variable spelled `_`"""
+    from .C01 import _templates
+    c = Canon(m.node)
+    out = set()
+    for n in walk_own(m.node):
+        if isinstance(n, ast.Call) and norm_stmt(n.func) == 'parse' and n.args:
+            loop_vars = {nm for nm in c.order if any(k == 'each' for k, _p in c.bindings.get(nm, []))}
+            arg = c.resolve(n.args[0])
+
+            class R(ast.NodeTransformer):
+                def visit_Name(self, x):
+                    return ast.copy_location(ast.Name(id='_' if x.id in loop_vars else x.id, ctx=x.ctx), x)
+            for t in _templates(R().visit(arg), c):
+                out.add(t)
+    return sorted(out)
+
+
+def _returns_not_enumerated(m):
+    """text of the first return whose value is neither [parse(..) for .. in itertools.X(..)] nor a list filled only by
+    .append(parse(..)) inside a loop over itertools.X(..); None when all are"""
+    c = Canon(m.node)
+
+    def from_itertools(it):
+        it = c.resolve(it)
+        return any(isinstance(x, ast.Call) and norm_stmt(x.func).startswith('itertools.') for x in ast.walk(it))
+
+    def is_parse(e):
+        return isinstance(e, ast.Call) and norm_stmt(e.func) == 'parse'
+
+    for r in walk_own(m.node):
+        if not isinstance(r, ast.Return):
+            continue
+        if r.value is None:
+            return norm_stmt(r)
+        v = c.resolve(r.value)
+        if isinstance(v, ast.ListComp) and is_parse(v.elt) and len(v.generators) == 1 and \
+                from_itertools(v.generators[0].iter):
+            continue
+        if isinstance(r.value, ast.Name):
+            nm = r.value.id
+            init = [n for n in walk_own(m.node) if isinstance(n, ast.Assign) and any(
+                isinstance(t, ast.Name) and t.id == nm for t in n.targets)]
+            fills, other = [], []
+            for loop in walk_own(m.node):
+                if isinstance(loop, ast.For) and from_itertools(loop.iter):
+                    for x in ast.walk(loop):
+                        if isinstance(x, ast.Call) and isinstance(x.func, ast.Attribute) and \
+                                norm_stmt(x.func.value) == nm and x.func.attr == 'append' and x.args and is_parse(x.args[0]):
+                            fills.append(x)
+            for x in walk_own(m.node):
+                if isinstance(x, ast.Call) and isinstance(x.func, ast.Attribute) and norm_stmt(x.func.value) == nm and \
+                        x not in fills:
+                    other.append(x)
+            if len(init) == 1 and norm_stmt(init[0].value) in ('[]', 'list()') and fills and not other:
+                continue
+        return norm_stmt(r)[:90]
+    return None
 
 
 def _is_wrapped_parse(m, ret) -> bool:
@@ -140,6 +223,10 @@ def _first_diff(a: str, b: str) -> str:
 
 def _pop_mods_internal_key(program) -> str:
     f = program.func(f'{PFA}.pop_mods')
+    from .C20 import produced_keys
+    for k_, fld in produced_keys(f).items():   # also reads a (key, has, pop) table
+        if fld.replace('_mods', '') == 'internal':
+            return k_
     for n in walk_own(f.node):
         if isinstance(n, ast.Assign) and isinstance(n.targets[0], ast.Subscript) and \
                 isinstance(n.targets[0].slice, ast.Constant) and 'pop_internal_mods' in norm_stmt(n.value):
